@@ -4,7 +4,9 @@ set -u
 P=$(readlink -f "$1"); shift
 git -C /repo status --short | grep -q . && { echo "/repo not clean"; exit 2; }
 git -C /repo apply "$P" || exit 2
-trap 'git -C /repo checkout -q -- .' EXIT
+# the evidence files must keep describing the unchanged tree: save and restore them
+EVSAVE=$(mktemp -d); cp -a /verif/evidence/. "$EVSAVE"/ 2>/dev/null
+trap 'git -C /repo checkout -q -- .; cp -a "$EVSAVE"/. /verif/evidence/ 2>/dev/null; rm -rf "$EVSAVE"' EXIT
 for prop in "$@"; do
   out=$(cd /verif && ./check.sh "$prop" quick 2>&1); code=$?
   echo "--- $prop exit=$code"
